@@ -2,5 +2,871 @@ import GV.Spec.JsonText
 import GV.Lemmas.Dec
 /- helper lemmas for GV/Props/C20.lean -/
 namespace GV
+open GV.M GV.JT
+
+theorem decodeRune_ascii (b : UInt8) (rest : Bytes) (h : b.toNat < 0x80) :
+    decodeRune (b :: rest) = some (b.toNat, 1) := by
+  simp [decodeRune, h]
+
+/-- shapes of a successfully decoded rune -/
+inductive RuneAt : Bytes → Nat → Nat → Prop
+  | r1 (b0 : UInt8) (t : Bytes) : b0.toNat < 0x80 → RuneAt (b0 :: t) b0.toNat 1
+  | r2 (b0 b1 : UInt8) (t : Bytes) : 0xC2 ≤ b0.toNat → b0.toNat ≤ 0xDF → 0x80 ≤ b1.toNat → b1.toNat ≤ 0xBF →
+      RuneAt (b0 :: b1 :: t) ((b0.toNat % 32) * 64 + b1.toNat % 64) 2
+  | r3 (b0 b1 b2 : UInt8) (t : Bytes) : 0xE0 ≤ b0.toNat → b0.toNat ≤ 0xEF →
+      (if b0.toNat = 0xE0 then 0xA0 else 0x80) ≤ b1.toNat → b1.toNat ≤ (if b0.toNat = 0xED then 0x9F else 0xBF) →
+      0x80 ≤ b2.toNat → b2.toNat ≤ 0xBF →
+      RuneAt (b0 :: b1 :: b2 :: t) (((b0.toNat % 16) * 64 + b1.toNat % 64) * 64 + b2.toNat % 64) 3
+  | r4 (b0 b1 b2 b3 : UInt8) (t : Bytes) : 0xF0 ≤ b0.toNat → b0.toNat ≤ 0xF4 →
+      (if b0.toNat = 0xF0 then 0x90 else 0x80) ≤ b1.toNat → b1.toNat ≤ (if b0.toNat = 0xF4 then 0x8F else 0xBF) →
+      0x80 ≤ b2.toNat → b2.toNat ≤ 0xBF → 0x80 ≤ b3.toNat → b3.toNat ≤ 0xBF →
+      RuneAt (b0 :: b1 :: b2 :: b3 :: t)
+        ((((b0.toNat % 8) * 64 + b1.toNat % 64) * 64 + b2.toNat % 64) * 64 + b3.toNat % 64) 4
+
+theorem decodeRune_runeAt {xs : Bytes} {cp w : Nat} (h : decodeRune xs = some (cp, w)) : RuneAt xs cp w := by
+  rcases xs with _ | ⟨b0, rest⟩
+  · simp [decodeRune] at h
+  · by_cases c1 : b0.toNat < 128
+    · simp [decodeRune, c1] at h; obtain ⟨rfl, rfl⟩ := h; exact .r1 _ _ c1
+    · by_cases c2 : 194 ≤ b0.toNat ∧ b0.toNat ≤ 223
+      · rcases rest with _ | ⟨b1, t⟩
+        · simp [decodeRune, c1, c2] at h
+        · simp [decodeRune, c1, c2] at h
+          obtain ⟨⟨h3, h4⟩, rfl, rfl⟩ := h
+          exact .r2 _ _ _ c2.1 c2.2 h3 h4
+      · by_cases c3 : 224 ≤ b0.toNat ∧ b0.toNat ≤ 239
+        · rcases rest with _ | ⟨b1, _ | ⟨b2, t⟩⟩
+          · simp [decodeRune, c1, c2, c3] at h
+          · simp [decodeRune, c1, c2, c3] at h
+          · simp [decodeRune, c1, c2, c3] at h
+            obtain ⟨⟨⟨h3, h4⟩, h5, h6⟩, rfl, rfl⟩ := h
+            exact .r3 _ _ _ _ c3.1 c3.2 h3 h4 h5 h6
+        · by_cases c4 : 240 ≤ b0.toNat ∧ b0.toNat ≤ 244
+          · rcases rest with _ | ⟨b1, _ | ⟨b2, _ | ⟨b3, t⟩⟩⟩
+            · simp [decodeRune, c1, c2, c3, c4] at h
+            · simp [decodeRune, c1, c2, c3, c4] at h
+            · simp [decodeRune, c1, c2, c3, c4] at h
+            · simp [decodeRune, c1, c2, c3, c4] at h
+              obtain ⟨⟨⟨⟨h3, h4⟩, h5, h6⟩, h7, h8⟩, rfl, rfl⟩ := h
+              exact .r4 _ _ _ _ _ c4.1 c4.2 h3 h4 h5 h6 h7 h8
+          · simp [decodeRune, c1, c2, c3, c4] at h
+
+theorem runeAt_decodeRune {xs : Bytes} {cp w : Nat} (h : RuneAt xs cp w) : decodeRune xs = some (cp, w) := by
+  cases h with
+  | r1 b0 t h => exact decodeRune_ascii _ _ h
+  | r2 b0 b1 t h1 h2 h3 h4 =>
+    have : ¬ b0.toNat < 128 := by omega
+    simp [decodeRune, this, h1, h2, h3, h4]
+  | r3 b0 b1 b2 t h1 h2 h3 h4 h5 h6 =>
+    have : ¬ b0.toNat < 128 := by omega
+    have : ¬ (194 ≤ b0.toNat ∧ b0.toNat ≤ 223) := by omega
+    simp [decodeRune, *]
+  | r4 b0 b1 b2 b3 t h1 h2 h3 h4 h5 h6 h7 h8 =>
+    have : ¬ b0.toNat < 128 := by omega
+    have : ¬ (194 ≤ b0.toNat ∧ b0.toNat ≤ 223) := by omega
+    have : ¬ (224 ≤ b0.toNat ∧ b0.toNat ≤ 239) := by omega
+    simp [decodeRune, *]
+
+theorem RuneAt.width {xs : Bytes} {cp w : Nat} (h : RuneAt xs cp w) : 1 ≤ w ∧ w ≤ xs.length := by
+  cases h <;> simp
+
+theorem RuneAt.take_append {xs : Bytes} {cp w : Nat} (h : RuneAt xs cp w) (ys : Bytes) :
+    RuneAt (xs.take w ++ ys) cp w := by
+  cases h with
+  | r1 b0 t h => exact .r1 _ _ h
+  | r2 b0 b1 t h1 h2 h3 h4 => exact .r2 _ _ _ h1 h2 h3 h4
+  | r3 b0 b1 b2 t h1 h2 h3 h4 h5 h6 => exact .r3 _ _ _ _ h1 h2 h3 h4 h5 h6
+  | r4 b0 b1 b2 b3 t h1 h2 h3 h4 h5 h6 h7 h8 => exact .r4 _ _ _ _ _ h1 h2 h3 h4 h5 h6 h7 h8
+
+theorem RuneAt.high {xs : Bytes} {cp w : Nat} (h : RuneAt xs cp w) (hb : ∀ b t, xs = b :: t → 0x80 ≤ b.toNat) :
+    ∀ c ∈ xs.take w, 0x80 ≤ c.toNat := by
+  cases h with
+  | r1 b0 t h => have := hb _ _ rfl; omega
+  | r2 b0 b1 t h1 h2 h3 h4 => simp; omega
+  | r3 b0 b1 b2 t h1 h2 h3 h4 h5 h6 => simp; split at h3 <;> omega
+  | r4 b0 b1 b2 b3 t h1 h2 h3 h4 h5 h6 h7 h8 => simp; split at h3 <;> omega
+
+theorem UInt8.eq_of_toNat {a b : UInt8} (h : a.toNat = b.toNat) : a = b := UInt8.toNat_inj.mp h
+
+theorem utf8Enc_2028 : utf8Enc 0x2028 = [0xE2, 0x80, 0xA8] := by decide
+theorem utf8Enc_2029 : utf8Enc 0x2029 = [0xE2, 0x80, 0xA9] := by decide
+
+theorem RuneAt.ls {xs : Bytes} {cp w : Nat} (h : RuneAt xs cp w) (hc : cp = 0x2028 ∨ cp = 0x2029) :
+    xs.take w = utf8Enc cp := by
+  cases h with
+  | r1 b0 t h => omega
+  | r2 b0 b1 t h1 h2 h3 h4 => omega
+  | r3 b0 b1 b2 t h1 h2 h3 h4 h5 h6 =>
+    have h3' : 0x80 ≤ b1.toNat := by split at h3 <;> omega
+    have h4' : b1.toNat ≤ 0xBF := by split at h4 <;> omega
+    clear h3 h4
+    have e0 : b0 = 0xE2 := UInt8.eq_of_toNat (by simp; omega)
+    have e1 : b1 = 0x80 := UInt8.eq_of_toNat (by simp; omega)
+    rcases hc with hc | hc
+    · have e2 : b2 = 0xA8 := UInt8.eq_of_toNat (by simp; omega)
+      rw [hc, utf8Enc_2028]; subst e0 e1 e2; rfl
+    · have e2 : b2 = 0xA9 := UInt8.eq_of_toNat (by simp; omega)
+      rw [hc, utf8Enc_2029]; subst e0 e1 e2; rfl
+  | r4 b0 b1 b2 b3 t h1 h2 h3 h4 h5 h6 h7 h8 => split at h3 <;> split at h4 <;> omega
+
+
+/-! ### fuel independence and unfolding of the fuelled string functions -/
+
+theorem decodeRune_drop_le {b : UInt8} {rest : Bytes} {cp w : Nat} (h : decodeRune (b :: rest) = some (cp, w)) :
+    ((b :: rest).drop w).length ≤ rest.length := by
+  have := (decodeRune_runeAt h).width
+  simp only [List.length_drop, List.length_cons] at *; omega
+
+/-- the escape of one ASCII byte -/
+def escAscii (b : UInt8) : Bytes :=
+  let c := b.toNat
+  if c = 0x22 then [0x5c, 0x22] else if c = 0x5c then [0x5c, 0x5c]
+  else if c = 0x08 then asc "\\b" else if c = 0x0c then asc "\\f"
+  else if c = 0x0a then asc "\\n" else if c = 0x0d then asc "\\r" else if c = 0x09 then asc "\\t"
+  else if c < 0x20 ∨ c = 0x3c ∨ c = 0x3e ∨ c = 0x26 then asc "\\u" ++ hex4 c
+  else [b]
+
+theorem jsonEscapeAux_fuel (n : Nat) : ∀ (m : Nat) (s : Bytes), s.length < n → s.length < m →
+    jsonEscapeAux n s = jsonEscapeAux m s := by
+  induction n with
+  | zero => intro m s h; omega
+  | succ n ih =>
+    intro m s hn hm
+    rcases m with _ | m
+    · omega
+    rcases s with _ | ⟨b, rest⟩
+    · simp [jsonEscapeAux]
+    · simp only [List.length_cons] at hn hm
+      simp only [jsonEscapeAux]
+      split
+      · rw [ih m rest (by omega) (by omega)]
+      · split
+        · rw [ih m rest (by omega) (by omega)]
+        · rename_i cp w hd
+          have := decodeRune_drop_le hd
+          rw [ih m _ (by omega) (by omega)]
+
+theorem jsonEscape_nil : jsonEscape [] = [] := by simp [jsonEscape, jsonEscapeAux]
+
+theorem jsonEscape_aux (n : Nat) (s : Bytes) (h : s.length < n) : jsonEscapeAux n s = jsonEscape s :=
+  jsonEscapeAux_fuel _ _ _ h (by omega)
+
+theorem jsonEscape_ascii (b : UInt8) (rest : Bytes) (h : b.toNat < 0x80) :
+    jsonEscape (b :: rest) = escAscii b ++ jsonEscape rest := by
+  rw [jsonEscape, List.length_cons, jsonEscapeAux, if_pos h, jsonEscape_aux _ _ (by omega)]
+  rfl
+
+theorem jsonEscape_bad (b : UInt8) (rest : Bytes) (h : ¬ b.toNat < 0x80) (hd : decodeRune (b :: rest) = none) :
+    jsonEscape (b :: rest) = asc "\\ufffd" ++ jsonEscape rest := by
+  rw [jsonEscape, List.length_cons, jsonEscapeAux, if_neg h, jsonEscape_aux _ _ (by omega)]
+  simp only [hd]
+
+theorem jsonEscape_ls (b : UInt8) (rest : Bytes) (cp w : Nat) (h : ¬ b.toNat < 0x80)
+    (hd : decodeRune (b :: rest) = some (cp, w)) (hc : cp = 0x2028 ∨ cp = 0x2029) :
+    jsonEscape (b :: rest) = asc "\\u" ++ hex4 cp ++ jsonEscape ((b :: rest).drop w) := by
+  have := decodeRune_drop_le hd
+  rw [jsonEscape, List.length_cons, jsonEscapeAux, if_neg h]
+  simp only [hd, if_pos hc]
+  rw [jsonEscape_aux _ _ (by omega)]
+
+theorem jsonEscape_rune (b : UInt8) (rest : Bytes) (cp w : Nat) (h : ¬ b.toNat < 0x80)
+    (hd : decodeRune (b :: rest) = some (cp, w)) (hc : ¬ (cp = 0x2028 ∨ cp = 0x2029)) :
+    jsonEscape (b :: rest) = (b :: rest).take w ++ jsonEscape ((b :: rest).drop w) := by
+  have := decodeRune_drop_le hd
+  rw [jsonEscape, List.length_cons, jsonEscapeAux, if_neg h]
+  simp only [hd, if_neg hc]
+  rw [jsonEscape_aux _ _ (by omega)]
+
+theorem sanitizeAux_fuel (n : Nat) : ∀ (m : Nat) (s : Bytes), s.length < n → s.length < m →
+    sanitizeAux n s = sanitizeAux m s := by
+  induction n with
+  | zero => intro m s h; omega
+  | succ n ih =>
+    intro m s hn hm
+    rcases m with _ | m
+    · omega
+    rcases s with _ | ⟨b, rest⟩
+    · simp [sanitizeAux]
+    · simp only [List.length_cons] at hn hm
+      simp only [sanitizeAux]
+      split
+      · rename_i cp w hd
+        have := decodeRune_drop_le hd
+        rw [ih m _ (by omega) (by omega)]
+      · rw [ih m rest (by omega) (by omega)]
+
+theorem sanitize_nil : sanitize [] = [] := by simp [sanitize, sanitizeAux]
+
+theorem sanitize_aux (n : Nat) (s : Bytes) (h : s.length < n) : sanitizeAux n s = sanitize s :=
+  sanitizeAux_fuel _ _ _ h (by omega)
+
+theorem sanitize_rune (b : UInt8) (rest : Bytes) (cp w : Nat) (hd : decodeRune (b :: rest) = some (cp, w)) :
+    sanitize (b :: rest) = (b :: rest).take w ++ sanitize ((b :: rest).drop w) := by
+  have := decodeRune_drop_le hd
+  rw [sanitize, List.length_cons, sanitizeAux]
+  simp only [hd]
+  rw [sanitize_aux _ _ (by omega)]
+
+theorem sanitize_bad (b : UInt8) (rest : Bytes) (hd : decodeRune (b :: rest) = none) :
+    sanitize (b :: rest) = [0xEF, 0xBF, 0xBD] ++ sanitize rest := by
+  rw [sanitize, List.length_cons, sanitizeAux]
+  simp only [hd]
+  rw [sanitize_aux _ _ (by omega)]
+
+theorem validUtf8Aux_fuel (n : Nat) : ∀ (m : Nat) (s : Bytes), s.length < n → s.length < m →
+    validUtf8Aux n s = validUtf8Aux m s := by
+  induction n with
+  | zero => intro m s h; omega
+  | succ n ih =>
+    intro m s hn hm
+    rcases m with _ | m
+    · omega
+    rcases s with _ | ⟨b, rest⟩
+    · simp [validUtf8Aux]
+    · simp only [List.length_cons] at hn hm
+      simp only [validUtf8Aux]
+      split
+      · rename_i cp w hd
+        have := decodeRune_drop_le hd
+        rw [ih m _ (by omega) (by omega)]
+      · rfl
+
+theorem validUtf8_nil : validUtf8 [] = true := by simp [validUtf8, validUtf8Aux]
+
+theorem validUtf8_aux (n : Nat) (s : Bytes) (h : s.length < n) : validUtf8Aux n s = validUtf8 s :=
+  validUtf8Aux_fuel _ _ _ h (by omega)
+
+theorem validUtf8_rune (xs : Bytes) (cp w : Nat) (hd : decodeRune xs = some (cp, w)) :
+    validUtf8 xs = validUtf8 (xs.drop w) := by
+  rcases xs with _ | ⟨b, rest⟩
+  · simp [decodeRune] at hd
+  have := decodeRune_drop_le hd
+  rw [validUtf8, List.length_cons, validUtf8Aux]
+  simp only [hd]
+  rw [validUtf8_aux _ _ (by omega)]
+
+theorem validUtf8_bad (b : UInt8) (rest : Bytes) (hd : decodeRune (b :: rest) = none) :
+    validUtf8 (b :: rest) = false := by
+  rw [validUtf8, List.length_cons, validUtf8Aux]
+  simp only [hd]
+
+
+/-! ### string-body fragments: complete escapes and plain bytes -/
+
+theorem strBodyOK_bs (c : UInt8) (rest : Bytes) : strBodyOK (0x5c :: c :: rest) =
+    if c = 0x22 ∨ c = 0x5c ∨ c = 0x2f ∨ c = 0x62 ∨ c = 0x66 ∨ c = 0x6e ∨ c = 0x72 ∨ c = 0x74 then strBodyOK rest
+    else if c = 0x75 then
+      match rest with
+      | h1 :: h2 :: h3 :: h4 :: rest' => isHex h1 && isHex h2 && isHex h3 && isHex h4 && strBodyOK rest'
+      | _ => false
+    else false := by
+  conv => lhs; unfold strBodyOK
+  rfl
+
+theorem unescape_bs (c : UInt8) (rest : Bytes) : unescape (0x5c :: c :: rest) =
+    (let simple (b : UInt8) := (unescape rest).map (b :: ·)
+    if c = 0x22 then simple 0x22 else if c = 0x5c then simple 0x5c else if c = 0x2f then simple 0x2f
+    else if c = 0x62 then simple 0x08 else if c = 0x66 then simple 0x0c else if c = 0x6e then simple 0x0a
+    else if c = 0x72 then simple 0x0d else if c = 0x74 then simple 0x09
+    else if c = 0x75 then
+      match rest with
+      | h1 :: h2 :: h3 :: h4 :: rest' =>
+        match hexVal4 h1 h2 h3 h4, unescape rest' with
+        | some cp, some r => if 0xD800 ≤ cp ∧ cp ≤ 0xDFFF then none else some (utf8Enc cp ++ r)
+        | _, _ => none
+      | _ => none
+    else none) := by
+  conv => lhs; unfold unescape
+  rfl
+
+theorem strBodyOK_plain (c : UInt8) (rest : Bytes) (h : c ≠ 0x5c) :
+    strBodyOK (c :: rest) = (decide (c ≠ 0x22) && decide (c.toNat ≥ 0x20) && strBodyOK rest) :=
+  strBodyOK.eq_5 c rest (fun _ _ e _ => h e) (fun e _ => h e)
+
+theorem unescape_plain (c : UInt8) (rest : Bytes) (h : c ≠ 0x5c) :
+    unescape (c :: rest) = (unescape rest).map (c :: ·) :=
+  unescape.eq_5 c rest (fun _ _ e _ => h e) (fun e _ => h e)
+
+theorem takeStrBody_plain (c : UInt8) (rest acc : Bytes) (h : c ≠ 0x5c) (h' : c ≠ 0x22) :
+    takeStrBody (c :: rest) acc = takeStrBody rest (c :: acc) :=
+  takeStrBody.eq_4 acc c rest h' (fun _ _ e _ => h e)
+
+/-- `f` is a sequence of complete string-body tokens that a reader decodes to `u` -/
+structure Frag (f u : Bytes) : Prop where
+  sb : ∀ r, strBodyOK (f ++ r) = strBodyOK r
+  un : ∀ r, unescape (f ++ r) = (unescape r).map (u ++ ·)
+  ts : ∀ r acc, takeStrBody (f ++ r) acc = takeStrBody r (f.reverse ++ acc)
+
+theorem Frag.nil : Frag [] [] := ⟨fun _ => rfl, fun r => by simp, fun _ _ => rfl⟩
+
+theorem Frag.append {f u g v : Bytes} (hf : Frag f u) (hg : Frag g v) : Frag (f ++ g) (u ++ v) where
+  sb r := by rw [List.append_assoc, hf.sb, hg.sb]
+  un r := by
+    rw [List.append_assoc, hf.un, hg.un]
+    cases unescape r <;> simp
+  ts r acc := by rw [List.append_assoc, hf.ts, hg.ts]; simp
+
+theorem Frag.plain (c : UInt8) (h1 : c ≠ 0x22) (h2 : c ≠ 0x5c) (h3 : 0x20 ≤ c.toNat) : Frag [c] [c] where
+  sb r := by simp [strBodyOK_plain c r h2, h1, h3]
+  un r := by simp [unescape_plain c r h2]
+  ts r acc := by simp [takeStrBody_plain c r acc h2 h1]
+
+theorem Frag.plains (f : Bytes) (h : ∀ c ∈ f, 0x80 ≤ c.toNat) : Frag f f := by
+  induction f with
+  | nil => exact Frag.nil
+  | cons c t ih =>
+    have hc := h c (by simp)
+    have : Frag [c] [c] := Frag.plain c (by intro e; subst e; simp at hc) (by intro e; subst e; simp at hc) (by omega)
+    exact this.append (ih (fun d hd => h d (by simp [hd])))
+
+/-- two-byte escapes -/
+theorem Frag.simple (c u : UInt8)
+    (h : (c, u) ∈ [((0x22 : UInt8), (0x22 : UInt8)), (0x5c, 0x5c), (0x2f, 0x2f), (0x62, 0x08), (0x66, 0x0c), (0x6e, 0x0a), (0x72, 0x0d), (0x74, 0x09)]) :
+    Frag [0x5c, c] [u] := by
+  simp at h
+  rcases h with ⟨rfl, rfl⟩ | ⟨rfl, rfl⟩ | ⟨rfl, rfl⟩ | ⟨rfl, rfl⟩ | ⟨rfl, rfl⟩ | ⟨rfl, rfl⟩ | ⟨rfl, rfl⟩ | ⟨rfl, rfl⟩ <;>
+  exact ⟨fun r => by simp [strBodyOK_bs], fun r => by simp [unescape_bs], fun r acc => by simp [takeStrBody]⟩
+
+theorem isHex_ne (h : UInt8) (hh : isHex h = true) : h ≠ 0x5c ∧ h ≠ 0x22 := by
+  constructor <;> (intro e; subst e; revert hh; decide)
+
+/-- `\uXXXX` escapes of a non-surrogate -/
+theorem Frag.uni (h1 h2 h3 h4 : UInt8) (cp : Nat) (hv : hexVal4 h1 h2 h3 h4 = some cp)
+    (hs : ¬ (0xD800 ≤ cp ∧ cp ≤ 0xDFFF)) : Frag [0x5c, 0x75, h1, h2, h3, h4] (utf8Enc cp) := by
+  have x1 : isHex h1 = true := by
+    unfold hexVal4 at hv; unfold isHex; cases e : unhexDigit h1 <;> simp [e] at hv ⊢
+  have x2 : isHex h2 = true := by
+    unfold hexVal4 at hv; unfold isHex; cases e : unhexDigit h2 <;> simp [e] at hv ⊢
+  have x3 : isHex h3 = true := by
+    unfold hexVal4 at hv; unfold isHex; cases e : unhexDigit h3 <;> simp [e] at hv ⊢
+  have x4 : isHex h4 = true := by
+    unfold hexVal4 at hv; unfold isHex; cases e : unhexDigit h4 <;> simp [e] at hv ⊢
+  refine ⟨fun r => ?_, fun r => ?_, fun r acc => ?_⟩
+  · simp [strBodyOK_bs, x1, x2, x3, x4]
+  · simp only [List.cons_append, List.nil_append, unescape_bs, hv]
+    cases unescape r <;> simp [hs]
+  · have n1 := isHex_ne h1 x1
+    have n2 := isHex_ne h2 x2
+    have n3 := isHex_ne h3 x3
+    have n4 := isHex_ne h4 x4
+    simp only [List.cons_append, List.nil_append, takeStrBody]
+    rw [takeStrBody_plain _ _ _ n1.1 n1.2, takeStrBody_plain _ _ _ n2.1 n2.2, takeStrBody_plain _ _ _ n3.1 n3.2,
+      takeStrBody_plain _ _ _ n4.1 n4.2]
+    simp
+
+
+theorem hexVal4_hex4_small : ∀ n, n < 128 →
+    hexVal4 (hexDigit (n / 4096)) (hexDigit (n / 256 % 16)) (hexDigit (n / 16 % 16)) (hexDigit (n % 16)) = some n := by
+  decide +kernel
+
+theorem utf8Enc_small (b : UInt8) (h : b.toNat < 0x80) : utf8Enc b.toNat = [b] := by
+  simp [utf8Enc, h]
+
+theorem asc_u_hex4 (n : Nat) : asc "\\u" ++ hex4 n =
+    [0x5c, 0x75, hexDigit (n / 4096), hexDigit (n / 256 % 16), hexDigit (n / 16 % 16), hexDigit (n % 16)] := rfl
+
+theorem Frag.ascii (b : UInt8) (h : b.toNat < 0x80) : Frag (escAscii b) [b] := by
+  unfold escAscii
+  simp only
+  split
+  · rename_i e; have : b = 0x22 := UInt8.eq_of_toNat e; subst this; exact Frag.simple _ _ (by simp)
+  split
+  · rename_i e; have : b = 0x5c := UInt8.eq_of_toNat e; subst this; exact Frag.simple _ _ (by simp)
+  split
+  · rename_i e; have : b = 0x08 := UInt8.eq_of_toNat e; subst this; exact Frag.simple 0x62 _ (by simp)
+  split
+  · rename_i e; have : b = 0x0c := UInt8.eq_of_toNat e; subst this; exact Frag.simple 0x66 _ (by simp)
+  split
+  · rename_i e; have : b = 0x0a := UInt8.eq_of_toNat e; subst this; exact Frag.simple 0x6e _ (by simp)
+  split
+  · rename_i e; have : b = 0x0d := UInt8.eq_of_toNat e; subst this; exact Frag.simple 0x72 _ (by simp)
+  split
+  · rename_i e; have : b = 0x09 := UInt8.eq_of_toNat e; subst this; exact Frag.simple 0x74 _ (by simp)
+  split
+  · rw [asc_u_hex4, ← utf8Enc_small b h]
+    exact Frag.uni _ _ _ _ _ (hexVal4_hex4_small _ h) (by omega)
+  · rename_i n1 n2 _ _ _ _ _ n3
+    refine Frag.plain b ?_ ?_ (by omega)
+    · intro e; subst e; simp at n1
+    · intro e; subst e; simp at n2
+
+theorem Frag.fffd : Frag (asc "\\ufffd") [0xEF, 0xBF, 0xBD] :=
+  Frag.uni 0x66 0x66 0x66 0x64 0xfffd (by decide) (by decide)
+
+theorem Frag.ls (cp : Nat) (h : cp = 0x2028 ∨ cp = 0x2029) : Frag (asc "\\u" ++ hex4 cp) (utf8Enc cp) := by
+  rw [asc_u_hex4]
+  rcases h with rfl | rfl
+  · exact Frag.uni _ _ _ _ _ (by decide) (by decide)
+  · exact Frag.uni _ _ _ _ _ (by decide) (by decide)
+
+/-- the escaper's output is a sequence of complete tokens decoding to the sanitised input -/
+theorem Frag.escape (s : Bytes) : Frag (jsonEscape s) (sanitize s) := by
+  generalize hn : s.length = n
+  induction n using Nat.strongRecOn generalizing s with
+  | _ n ih =>
+    rcases s with _ | ⟨b, rest⟩
+    · rw [jsonEscape_nil, sanitize_nil]; exact Frag.nil
+    · simp only [List.length_cons] at hn
+      by_cases hb : b.toNat < 0x80
+      · rw [jsonEscape_ascii b rest hb, sanitize_rune b rest _ _ (decodeRune_ascii b rest hb)]
+        exact (Frag.ascii b hb).append (ih rest.length (by omega) rest rfl)
+      · cases hd : decodeRune (b :: rest) with
+        | none =>
+          rw [jsonEscape_bad b rest hb hd, sanitize_bad b rest hd]
+          exact Frag.fffd.append (ih rest.length (by omega) rest rfl)
+        | some p =>
+          obtain ⟨cp, w⟩ := p
+          have hl := decodeRune_drop_le hd
+          have hr := decodeRune_runeAt hd
+          rw [sanitize_rune b rest cp w hd]
+          by_cases hc : cp = 0x2028 ∨ cp = 0x2029
+          · rw [jsonEscape_ls b rest cp w hb hd hc, hr.ls hc]
+            exact (Frag.ls cp hc).append (ih _ (by omega) _ rfl)
+          · rw [jsonEscape_rune b rest cp w hb hd hc]
+            refine (Frag.plains _ (hr.high ?_)).append (ih _ (by omega) _ rfl)
+            intro b' t e; cases e; omega
+
+
+/-! ### UTF-8 validity of the escaped text -/
+
+theorem validUtf8_ascii_append (f r : Bytes) (h : ∀ c ∈ f, c.toNat < 0x80) : validUtf8 (f ++ r) = validUtf8 r := by
+  induction f with
+  | nil => rfl
+  | cons c t ih =>
+    rw [List.cons_append, validUtf8_rune _ _ _ (decodeRune_ascii c _ (h c (by simp)))]
+    exact ih (fun d hd => h d (by simp [hd]))
+
+theorem validUtf8_rune_append (xs r : Bytes) (cp w : Nat) (hd : decodeRune xs = some (cp, w)) :
+    validUtf8 (xs.take w ++ r) = validUtf8 r := by
+  have hr := decodeRune_runeAt hd
+  rw [validUtf8_rune _ _ _ (runeAt_decodeRune (hr.take_append r))]
+  have := hr.width
+  rw [List.drop_append_of_le_length (by simp; omega)]
+  simp
+
+theorem escAscii_ascii_nat : ∀ n, n < 128 → ∀ c ∈ escAscii (UInt8.ofNat n), c.toNat < 0x80 := by
+  decide +kernel
+
+theorem escAscii_ascii (b : UInt8) (h : b.toNat < 0x80) : ∀ c ∈ escAscii b, c.toNat < 0x80 := by
+  have := escAscii_ascii_nat b.toNat h
+  simpa using this
+
+theorem validUtf8_escape (s : Bytes) : validUtf8 (jsonEscape s) = true := by
+  generalize hn : s.length = n
+  induction n using Nat.strongRecOn generalizing s with
+  | _ n ih =>
+    rcases s with _ | ⟨b, rest⟩
+    · rw [jsonEscape_nil]; exact validUtf8_nil
+    · simp only [List.length_cons] at hn
+      by_cases hb : b.toNat < 0x80
+      · rw [jsonEscape_ascii b rest hb, validUtf8_ascii_append _ _ (escAscii_ascii b hb)]
+        exact ih rest.length (by omega) rest rfl
+      · cases hd : decodeRune (b :: rest) with
+        | none =>
+          rw [jsonEscape_bad b rest hb hd, validUtf8_ascii_append _ _ (by decide)]
+          exact ih rest.length (by omega) rest rfl
+        | some p =>
+          obtain ⟨cp, w⟩ := p
+          have hl := decodeRune_drop_le hd
+          by_cases hc : cp = 0x2028 ∨ cp = 0x2029
+          · rw [jsonEscape_ls b rest cp w hb hd hc, validUtf8_ascii_append _ _ (by rcases hc with rfl | rfl <;> decide)]
+            exact ih _ (by omega) _ rfl
+          · rw [jsonEscape_rune b rest cp w hb hd hc, validUtf8_rune_append _ _ _ _ hd]
+            exact ih _ (by omega) _ rfl
+
+theorem sanitize_valid (s : Bytes) (h : validUtf8 s = true) : sanitize s = s := by
+  generalize hn : s.length = n
+  induction n using Nat.strongRecOn generalizing s with
+  | _ n ih =>
+    rcases s with _ | ⟨b, rest⟩
+    · exact sanitize_nil
+    · simp only [List.length_cons] at hn
+      cases hd : decodeRune (b :: rest) with
+      | none => rw [validUtf8_bad b rest hd] at h; cases h
+      | some p =>
+        obtain ⟨cp, w⟩ := p
+        have hl := decodeRune_drop_le hd
+        rw [validUtf8_rune _ _ _ hd] at h
+        rw [sanitize_rune b rest cp w hd, ih _ (by omega) _ h rfl, List.take_append_drop]
+
+/-! ### unfolding the parser on a known first byte -/
+
+theorem parseJV_str (f : Nat) (rest : Bytes) : parseJV (f + 1) (0x22 :: rest) =
+      (match takeStrBody rest [] with
+       | some (body, rest') =>
+         if strBodyOK body && validUtf8 body then (unescape body).map fun s => (.str s, rest') else none
+       | none => none) := by
+  conv => lhs; unfold parseJV
+  rfl
+theorem parseJV_null (f : Nat) (rest : Bytes) : parseJV (f + 1) (0x6e :: 0x75 :: 0x6c :: 0x6c :: rest) = some (.null, rest) := by
+  conv => lhs; unfold parseJV
+  rfl
+theorem parseJV_true (f : Nat) (rest : Bytes) : parseJV (f + 1) (0x74 :: 0x72 :: 0x75 :: 0x65 :: rest) = some (.bool true, rest) := by
+  conv => lhs; unfold parseJV
+  rfl
+theorem parseJV_false (f : Nat) (rest : Bytes) : parseJV (f + 1) (0x66 :: 0x61 :: 0x6c :: 0x73 :: 0x65 :: rest) = some (.bool false, rest) := by
+  conv => lhs; unfold parseJV
+  rfl
+theorem parseJV_arr0 (f : Nat) (rest : Bytes) : parseJV (f + 1) (0x5b :: 0x5d :: rest) = some (.arr [], rest) := by
+  conv => lhs; unfold parseJV
+  rfl
+theorem parseJV_arr (f : Nat) (rest : Bytes) : parseJV (f + 1) (0x5b :: 0x7b :: rest) =
+    (parseItems f (0x7b :: rest)).map fun (l, r) => (.arr l, r) := by
+  conv => lhs; unfold parseJV
+  rfl
+theorem parseJV_obj (f : Nat) (rest : Bytes) : parseJV (f + 1) (0x7b :: 0x22 :: rest) =
+    (parseFields f (0x22 :: rest)).map fun (l, r) => (.obj l, r) := by
+  conv => lhs; unfold parseJV
+  rfl
+theorem parseJV_neg (f : Nat) (rest : Bytes) : parseJV (f + 1) (0x2d :: rest) =
+      (match takeDigits rest [] with
+       | (ds, rest') => (decValue ds).map fun v => (.num (-(v : Int)), rest')) := by
+  conv => lhs; unfold parseJV
+  rfl
+theorem parseItems_unf (f : Nat) (inp : Bytes) : parseItems (f + 1) inp =
+    match parseJV f inp with
+    | some (v, 0x2c :: rest) => (parseItems f rest).map fun (l, r) => (v :: l, r)
+    | some (v, 0x5d :: rest) => some ([v], rest)
+    | _ => none := by
+  conv => lhs; unfold parseItems
+  rfl
+theorem parseFields_unf (f : Nat) (rest : Bytes) : parseFields (f + 1) (0x22 :: rest) =
+      (match takeStrBody rest [] with
+       | some (kb, 0x3a :: rest') =>
+         if strBodyOK kb && validUtf8 kb then
+           match unescape kb, parseJV f rest' with
+           | some k, some (v, 0x2c :: rest'') => (parseFields f rest'').map fun (l, r) => ((k, v) :: l, r)
+           | some k, some (v, 0x7d :: rest'') => some ([(k, v)], rest'')
+           | _, _ => none
+         else none
+       | _ => none) := by
+  conv => lhs; unfold parseFields
+  rfl
+theorem parseJV_dig (f : Nat) (c : UInt8) (rest : Bytes) (h : isDigit c = true) : parseJV (f + 1) (c :: rest) =
+        (match takeDigits (c :: rest) [] with
+         | (ds, rest') => (decValue ds).map fun v => (.num (v : Int), rest')) := by
+  have hd : ∀ n, n < 256 → isDigit (UInt8.ofNat n) = true → n = 48 ∨ n = 49 ∨ n = 50 ∨ n = 51 ∨ n = 52 ∨ n = 53 ∨
+      n = 54 ∨ n = 55 ∨ n = 56 ∨ n = 57 := by decide +kernel
+  have hc : c = UInt8.ofNat c.toNat := by simp
+  have := hd c.toNat (UInt8.toNat_lt c) (by rw [← hc]; exact h)
+  rcases this with e | e | e | e | e | e | e | e | e | e <;>
+  · rw [e] at hc
+    subst hc
+    conv => lhs; unfold parseJV
+    rfl
+
+/-! ### print/parse combinators (fuel bound: more fuel than printed bytes) -/
+
+/-- the input does not continue with a digit (so a number ends here) -/
+def ND (rest : Bytes) : Prop := ∀ c t, rest = c :: t → isDigit c = false
+
+theorem ND_nil : ND [] := by intro c t h; cases h
+theorem ND_cons (c : UInt8) (t : Bytes) (h : isDigit c = false) : ND (c :: t) := by
+  intro c' t' e; cases e; exact h
+
+/-- `p` is a text that parses to `v`, whatever follows -/
+def PJ (p : Bytes) (v : JV) : Prop := ∀ f rest, p.length < f → parseJV f (p ++ rest) = some (v, rest)
+/-- `p` is a text that parses to `v`, if no digit follows -/
+def PJw (p : Bytes) (v : JV) : Prop := ∀ f rest, p.length < f → ND rest → parseJV f (p ++ rest) = some (v, rest)
+/-- `q` is the text of the fields of an object including the closing brace -/
+def PF (q : Bytes) (l : List (Bytes × JV)) : Prop := ∀ f rest, q.length < f → parseFields f (q ++ rest) = some (l, rest)
+/-- `q` is the text of the items of an array including the closing bracket -/
+def PI (q : Bytes) (l : List JV) : Prop := ∀ f rest, q.length < f → parseItems f (q ++ rest) = some (l, rest)
+
+theorem PJ.cast {p p' : Bytes} {v v' : JV} (h : PJ p v) (e : p' = p) (e2 : v' = v) : PJ p' v' := by
+  subst e e2; exact h
+
+theorem PJ.w {p : Bytes} {v : JV} (h : PJ p v) : PJw p v := fun f rest hf _ => h f rest hf
+
+theorem takeStrBody_escape (s rest : Bytes) :
+    takeStrBody (jsonEscape s ++ 0x22 :: rest) [] = some (jsonEscape s, rest) := by
+  rw [(Frag.escape s).ts, takeStrBody.eq_2]; simp
+
+theorem strBodyOK_escape (s : Bytes) : strBodyOK (jsonEscape s) = true := by
+  have := (Frag.escape s).sb []
+  simpa [strBodyOK] using this
+
+theorem unescape_escape (s : Bytes) : unescape (jsonEscape s) = some (sanitize s) := by
+  have := (Frag.escape s).un []
+  simpa [unescape] using this
+
+theorem PJ_str (s : Bytes) : PJ (jstr s) (.str (sanitize s)) := by
+  intro f rest hf
+  rcases f with _ | f
+  · omega
+  have e : jstr s ++ rest = 0x22 :: (jsonEscape s ++ 0x22 :: rest) := by simp [jstr]
+  rw [e, parseJV_str, takeStrBody_escape]
+  simp [strBodyOK_escape, validUtf8_escape, unescape_escape]
+
+theorem PJ_null : PJ (asc "null") .null := by
+  intro f rest hf
+  rcases f with _ | f
+  · omega
+  exact parseJV_null f rest
+
+theorem PJ_bool (b : Bool) : PJ (if b then asc "true" else asc "false") (.bool b) := by
+  intro f rest hf
+  rcases f with _ | f
+  · omega
+  cases b
+  · exact parseJV_false f rest
+  · exact parseJV_true f rest
+
+theorem takeDigits_append (ds rest acc : Bytes) (hd : ∀ c ∈ ds, isDigit c = true) (hr : ND rest) :
+    takeDigits (ds ++ rest) acc = (acc.reverse ++ ds, rest) := by
+  induction ds generalizing acc with
+  | nil =>
+    rcases rest with _ | ⟨c, t⟩
+    · simp [takeDigits]
+    · simp [takeDigits, hr c t rfl]
+  | cons d ds ih =>
+    simp only [List.cons_append, takeDigits, hd d (by simp), if_true]
+    rw [ih _ (fun c hc => hd c (by simp [hc]))]
+    simp
+
+theorem natDec_cons (n : Nat) : ∃ d t, natDec n = d :: t ∧ isDigit d = true := by
+  have h1 := natDec_ne_nil n
+  have h2 := natDec_all_digits n
+  rcases h : natDec n with _ | ⟨d, t⟩
+  · exact absurd h h1
+  · exact ⟨d, t, rfl, h2 d (by simp [h])⟩
+
+theorem PJw_int (v : Int) : PJw (intDec v) (.num v) := by
+  intro f rest hf hr
+  rcases f with _ | f
+  · omega
+  unfold intDec
+  split
+  · rename_i hneg
+    rw [List.cons_append, parseJV_neg, takeDigits_append _ _ _ (natDec_all_digits _) hr]
+    have hv : -(v.natAbs : Int) = v := by omega
+    simp [decValue_natDec, hv]
+  · rename_i hpos
+    obtain ⟨d, t, e, hd⟩ := natDec_cons v.natAbs
+    have h2 := natDec_all_digits v.natAbs
+    have h3 := decValue_natDec v.natAbs
+    rw [e] at h2 h3 ⊢
+    rw [List.cons_append, parseJV_dig f d _ hd, ← List.cons_append, takeDigits_append _ _ _ h2 hr]
+    have hv : (v.natAbs : Int) = v := by omega
+    simp [h3, hv]
+
+/-- key literals that need no escaping -/
+def KeyOK (k : String) : Prop := jsonEscape (asc k) = asc k ∧ sanitize (asc k) = asc k
+
+theorem jkey_eq (k : String) (hk : KeyOK k) (x : Bytes) :
+    jkey k ++ x = 0x22 :: (jsonEscape (asc k) ++ 0x22 :: 0x3a :: x) := by
+  rw [hk.1]; simp [jkey]; rfl
+
+theorem jkey_length (k : String) : (jkey k).length = (asc k).length + 3 := by
+  simp [jkey]; rfl
+
+theorem PF_last (k : String) (hk : KeyOK k) {pv : Bytes} {v : JV} (hv : PJw pv v) :
+    PF (jkey k ++ pv ++ [0x7d]) [(asc k, v)] := by
+  intro f rest hf
+  rcases f with _ | f
+  · omega
+  simp only [List.length_append, jkey_length, List.length_singleton] at hf
+  rw [List.append_assoc, List.append_assoc, jkey_eq k hk, parseFields_unf, takeStrBody_escape]
+  simp only [strBodyOK_escape, validUtf8_escape, unescape_escape, hk.2, Bool.and_self, if_true, List.cons_append,
+    List.nil_append]
+  rw [hv f _ (by omega) (ND_cons _ _ (by decide))]
+  rfl
+
+theorem PF_cons (k : String) (hk : KeyOK k) {pv : Bytes} {v : JV} (hv : PJw pv v) {q : Bytes} {l : List (Bytes × JV)}
+    (hq : PF q l) : PF (jkey k ++ pv ++ [0x2c] ++ q) ((asc k, v) :: l) := by
+  intro f rest hf
+  rcases f with _ | f
+  · omega
+  simp only [List.length_append, jkey_length, List.length_singleton] at hf
+  rw [List.append_assoc, List.append_assoc, List.append_assoc, jkey_eq k hk, parseFields_unf, takeStrBody_escape]
+  simp only [strBodyOK_escape, validUtf8_escape, unescape_escape, hk.2, Bool.and_self, if_true, List.cons_append,
+    List.nil_append]
+  rw [hv f _ (by omega) (ND_cons _ _ (by decide))]
+  simp only []
+  rw [hq f rest (by omega)]
+  rfl
+
+theorem PJ_obj {q : Bytes} {l : List (Bytes × JV)} (hq : PF q l) (h0 : q.head? = some 0x22) :
+    PJ (0x7b :: q) (.obj l) := by
+  intro f rest hf
+  rcases f with _ | f
+  · omega
+  rcases q with _ | ⟨c, t⟩
+  · simp at h0
+  simp only [List.head?_cons, Option.some.injEq] at h0
+  subst h0
+  simp only [List.length_cons] at hf
+  have := hq f rest (by simp only [List.length_cons]; omega)
+  rw [List.cons_append, List.cons_append, parseJV_obj, ← List.cons_append, this]
+  rfl
+
+theorem PI_last {p : Bytes} {v : JV} (hv : PJw p v) : PI (p ++ [0x5d]) [v] := by
+  intro f rest hf
+  rcases f with _ | f
+  · omega
+  simp only [List.length_append, List.length_singleton] at hf
+  rw [List.append_assoc, parseItems_unf, List.cons_append, List.nil_append, hv f _ (by omega) (ND_cons _ _ (by decide))]
+  rfl
+
+theorem PI_cons {p : Bytes} {v : JV} (hv : PJw p v) {q : Bytes} {l : List JV} (hq : PI q l) :
+    PI (p ++ [0x2c] ++ q) (v :: l) := by
+  intro f rest hf
+  rcases f with _ | f
+  · omega
+  simp only [List.length_append, List.length_singleton] at hf
+  rw [List.append_assoc, List.append_assoc, parseItems_unf, List.cons_append, List.nil_append, hv f _ (by omega) (ND_cons _ _ (by decide))]
+  simp only []
+  rw [hq f rest (by omega)]
+  rfl
+
+theorem PI_join {α : Type} (pr : α → Bytes) (sh : α → JV) (i : α) (is : List α)
+    (h : ∀ x ∈ i :: is, PJw (pr x) (sh x)) :
+    PI (joinWith [0x2c] ((i :: is).map pr) ++ [0x5d]) ((i :: is).map sh) := by
+  induction is generalizing i with
+  | nil => exact PI_last (h i (by simp))
+  | cons j js ih =>
+    have := PI_cons (h i (by simp)) (ih j (fun x hx => h x (by simp [hx])))
+    simpa [joinWith, List.append_assoc] using this
+
+theorem PJ_arr {α : Type} (pr : α → Bytes) (sh : α → JV) (items : List α)
+    (h : ∀ x ∈ items, PJw (pr x) (sh x)) (hb : ∀ x ∈ items, (pr x).head? = some 0x7b) :
+    PJ (jarr (items.map pr)) (.arr (items.map sh)) := by
+  intro f rest hf
+  rcases f with _ | f
+  · omega
+  rcases items with _ | ⟨i, is⟩
+  · exact parseJV_arr0 f rest
+  · have hq := PI_join pr sh i is h
+    have hl : (jarr ((i :: is).map pr)).length = (joinWith [0x2c] ((i :: is).map pr) ++ [0x5d]).length + 1 := by
+      simp [jarr]
+    obtain ⟨t, ht⟩ : ∃ t, joinWith [0x2c] ((i :: is).map pr) = 0x7b :: t := by
+      obtain ⟨t, ht⟩ : ∃ t, pr i = 0x7b :: t := by
+        have := hb i (by simp)
+        cases hp : pr i with
+        | nil => rw [hp] at this; simp at this
+        | cons c t =>
+          rw [hp] at this
+          simp only [List.head?_cons, Option.some.injEq] at this
+          exact ⟨t, by rw [this]⟩
+      rcases is with _ | ⟨j, js⟩
+      · exact ⟨t, by simp [joinWith, ht]⟩
+      · exact ⟨_, by simp only [List.map_cons, joinWith, ht, List.cons_append]; rfl⟩
+    have e : jarr ((i :: is).map pr) ++ rest = 0x5b :: (joinWith [0x2c] ((i :: is).map pr) ++ [0x5d] ++ rest) := by
+      simp [jarr]
+    have := hq f rest (by omega)
+    rw [e]
+    rw [ht] at this ⊢
+    rw [List.cons_append, List.cons_append, parseJV_arr]
+    rw [List.cons_append, List.cons_append] at this
+    rw [this]
+    rfl
+
+
+/-! ### the marshalers -/
+
+theorem keyOK_all : KeyOK "filed" ∧ KeyOK "type" ∧ KeyOK "isEmpty" ∧ KeyOK "data" ∧ KeyOK "Columns" ∧ KeyOK "name" ∧
+    KeyOK "db" ∧ KeyOK "table" ∧ KeyOK "timestamp" ∧ KeyOK "sql" ∧ KeyOK "rowValues" ∧ KeyOK "rowIdentifies" ∧
+    KeyOK "nowPosition" ∧ KeyOK "nextPosition" ∧ KeyOK "filename" ∧ KeyOK "offset" ∧ KeyOK "events" := by
+  unfold KeyOK; decide +kernel
+
+theorem asc_comma : asc "," = [0x2c] := rfl
+theorem asc_lb : asc "{" = [0x7b] := rfl
+theorem asc_rb : asc "}" = [0x7d] := rfl
+theorem asc_rbc : asc "}," = [0x7d, 0x2c] := rfl
+
+theorem PJ_col (c : JCol) : PJ (marshalCol c) (shapeCol c) := by
+  obtain ⟨k1, k2, k3, k4, -⟩ := keyOK_all
+  have key : ∀ (pd : Bytes) (vd : JV), PJw pd vd →
+      PJ (asc "{" ++ jkey "filed" ++ jstr c.filed ++ asc "," ++ jkey "type" ++ jstr (asc (columnTypeName c.typ)) ++
+        asc "," ++ jkey "isEmpty" ++ (if c.isEmpty then asc "true" else asc "false") ++ asc "," ++ jkey "data" ++
+        pd ++ asc "}")
+      (.obj [(k "filed", jstrV c.filed), (k "type", jstrV (asc (columnTypeName c.typ))), (k "isEmpty", .bool c.isEmpty),
+        (k "data", vd)]) := by
+    intro pd vd hdata
+    have h := PJ_obj (PF_cons "filed" k1 (PJ_str c.filed).w (PF_cons "type" k2 (PJ_str (asc (columnTypeName c.typ))).w
+      (PF_cons "isEmpty" k3 (PJ_bool c.isEmpty).w (PF_last "data" k4 hdata)))) (by simp [jkey])
+    refine h.cast ?_ rfl
+    simp only [asc_comma, asc_lb, asc_rb, List.append_assoc, List.cons_append, List.nil_append]
+  obtain ⟨filed, typ, isEmpty, data⟩ := c
+  cases data with
+  | none => exact key _ _ PJ_null.w
+  | some d => exact key _ _ (PJ_str d).w
+
+
+theorem marshalCol_head (c : JCol) : (marshalCol c).head? = some 0x7b := by
+  simp [marshalCol, asc_lb]
+
+theorem PJ_row (r : List JCol) : PJ (marshalRow r) (.obj [(k "Columns", .arr (r.map shapeCol))]) := by
+  obtain ⟨-, -, -, -, k5, -⟩ := keyOK_all
+  have h := PJ_obj (PF_last "Columns" k5
+    (PJ_arr marshalCol shapeCol r (fun x _ => (PJ_col x).w) (fun x _ => marshalCol_head x)).w) (by simp [jkey])
+  refine h.cast ?_ rfl
+  simp only [marshalRow, asc_lb, asc_rb, List.append_assoc, List.cons_append, List.nil_append]
+
+theorem marshalRow_head (r : List JCol) : (marshalRow r).head? = some 0x7b := by
+  simp [marshalRow, asc_lb]
+
+theorem PJ_rows (rs : Option (List (List JCol))) : PJ (marshalRows rs) (shapeRows rs) := by
+  cases rs with
+  | none => exact PJ_null
+  | some rs =>
+    exact PJ_arr marshalRow (fun r => .obj [(k "Columns", .arr (r.map shapeCol))]) rs (fun x _ => (PJ_row x).w)
+      (fun x _ => marshalRow_head x)
+
+theorem PJ_pos (file : Bytes) (off : Int) :
+    PJ (marshalPos file off) (.obj [(k "filename", jstrV file), (k "offset", .num off)]) := by
+  obtain ⟨-, -, -, -, -, -, -, -, -, -, -, -, -, -, k15, k16, -⟩ := keyOK_all
+  have h := PJ_obj (PF_cons "filename" k15 (PJ_str file).w (PF_last "offset" k16 (PJw_int off))) (by simp [jkey])
+  refine h.cast ?_ rfl
+  simp only [marshalPos, asc_comma, asc_lb, asc_rb, List.append_assoc, List.cons_append, List.nil_append]
+
+theorem PJ_event (ft : Int → Bytes) (e : JEvent) : PJ (marshalEvent ft e) (shapeEvent ft e) := by
+  obtain ⟨-, k2, -, -, -, k6, k7, k8, k9, k10, k11, k12, -⟩ := keyOK_all
+  have hname := PJ_obj (PF_cons "db" k7 (PJ_str e.db).w (PF_last "table" k8 (PJ_str e.table).w)) (by simp [jkey])
+  by_cases hsql : e.sql ≠ []
+  · have h := PJ_obj (PF_cons "name" k6 hname.w (PF_cons "type" k2 (PJ_str (asc (statementName e.typ))).w
+      (PF_cons "timestamp" k9 (PJ_str (ft e.ts)).w (PF_last "sql" k10 (PJ_str e.sql).w)))) (by simp [jkey])
+    refine h.cast ?_ ?_
+    · simp only [marshalEvent, if_pos hsql, asc_comma, asc_lb, asc_rb, asc_rbc, List.append_assoc, List.cons_append,
+        List.nil_append]
+    · simp only [shapeEvent, if_pos hsql]; rfl
+  · have h := PJ_obj (PF_cons "name" k6 hname.w (PF_cons "type" k2 (PJ_str (asc (statementName e.typ))).w
+      (PF_cons "timestamp" k9 (PJ_str (ft e.ts)).w (PF_cons "rowValues" k11 (PJ_rows e.rowValues).w
+      (PF_last "rowIdentifies" k12 (PJ_rows e.rowIdentifies).w))))) (by simp [jkey])
+    refine h.cast ?_ ?_
+    · simp only [marshalEvent, if_neg hsql, asc_comma, asc_lb, asc_rb, asc_rbc, List.append_assoc, List.cons_append,
+        List.nil_append]
+    · simp only [shapeEvent, if_neg hsql]; rfl
+
+theorem marshalEvent_head (ft : Int → Bytes) (e : JEvent) : (marshalEvent ft e).head? = some 0x7b := by
+  unfold marshalEvent; simp only; split <;> simp [asc_lb]
+
+theorem PJ_tx (ft : Int → Bytes) (t : JTx) : PJ (marshalTx ft t) (shapeTx ft t) := by
+  obtain ⟨-, -, -, -, -, -, -, -, k9, -, -, -, k13, k14, -, -, k17⟩ := keyOK_all
+  have key : ∀ (pd : Bytes) (vd : JV), PJw pd vd →
+      PJ (asc "{" ++ jkey "nowPosition" ++ marshalPos t.nowFile t.nowOff ++ asc "," ++ jkey "nextPosition" ++
+        marshalPos t.nextFile t.nextOff ++ asc "," ++ jkey "timestamp" ++ jstr (ft t.ts) ++ asc "," ++ jkey "events" ++
+        pd ++ asc "}")
+      (.obj [(k "nowPosition", .obj [(k "filename", jstrV t.nowFile), (k "offset", .num t.nowOff)]),
+        (k "nextPosition", .obj [(k "filename", jstrV t.nextFile), (k "offset", .num t.nextOff)]),
+        (k "timestamp", jstrV (ft t.ts)), (k "events", vd)]) := by
+    intro pd vd hd
+    have h := PJ_obj (PF_cons "nowPosition" k13 (PJ_pos t.nowFile t.nowOff).w (PF_cons "nextPosition" k14
+      (PJ_pos t.nextFile t.nextOff).w (PF_cons "timestamp" k9 (PJ_str (ft t.ts)).w (PF_last "events" k17 hd))))
+      (by simp [jkey])
+    refine h.cast ?_ rfl
+    simp only [asc_comma, asc_lb, asc_rb, List.append_assoc, List.cons_append, List.nil_append]
+  obtain ⟨nowFile, nowOff, nextFile, nextOff, ts, events⟩ := t
+  cases events with
+  | none => exact key _ _ PJ_null.w
+  | some es =>
+    exact key _ _ (PJ_arr (marshalEvent ft) (shapeEvent ft) es (fun x _ => (PJ_event ft x).w)
+      (fun x _ => marshalEvent_head ft x)).w
+
+theorem parse_of_PJ {p : Bytes} {v : JV} (h : PJ p v) : parse p = some v := by
+  unfold parse
+  have := h (p.length + 1) [] (by omega)
+  rw [List.append_nil] at this
+  rw [this]
 
 end GV
